@@ -35,6 +35,9 @@ def Vector_na_value_decorators : List String := ["property"]
 /-- the signature of dataiter/vector.py: Vector.na_value: parameters in order, with the source text of their defaults -/
 def Vector_na_value_signature : List String := ["self"]
 
+/-- the calls of dataiter/vector.py: Vector.na_value in the order Python makes them along the source text -/
+def Vector_na_value_call_order : List String := ["self.is_datetime", "np.datetime64", "self.is_timedelta", "np.timedelta64", "self.is_float", "self.is_integer", "self.is_string", "self._is_string_fixed"]
+
 /-- dataiter/vector.py: Vector.na_dtype (sha256 of the function source: dd4bad661e423266) -/
 def Vector_na_dtype (truth : Term → Bool) : Out :=
   if truth (Term.app ".is_datetime" [(Term.sym "self")]) then
@@ -60,6 +63,9 @@ def Vector_na_dtype_decorators : List String := ["property"]
 /-- the signature of dataiter/vector.py: Vector.na_dtype: parameters in order, with the source text of their defaults -/
 def Vector_na_dtype_signature : List String := ["self"]
 
+/-- the calls of dataiter/vector.py: Vector.na_dtype in the order Python makes them along the source text -/
+def Vector_na_dtype_call_order : List String := ["self.is_datetime", "self.is_timedelta", "self.is_float", "self.is_integer", "self.is_string", "self._is_string_fixed"]
+
 /-- dataiter/vector.py: Vector.is_na (sha256 of the function source: 489b24035d441d9d) -/
 def Vector_is_na (truth : Term → Bool) : Out :=
   if truth (Term.app ".is_datetime" [(Term.sym "self")]) then
@@ -82,6 +88,9 @@ def Vector_is_na_decorators : List String := []
 /-- the signature of dataiter/vector.py: Vector.is_na: parameters in order, with the source text of their defaults -/
 def Vector_is_na_signature : List String := ["self"]
 
+/-- the calls of dataiter/vector.py: Vector.is_na in the order Python makes them along the source text -/
+def Vector_is_na_call_order : List String := ["self.is_datetime", "np.isnat", "self.is_timedelta", "np.isnat", "self.is_float", "np.isnan", "self.is_string", "self._is_string_fixed", "self.fast"]
+
 /-- dataiter/vector.py: Vector.drop_na (sha256 of the function source: 94a4d2b6c906399e) -/
 def Vector_drop_na (truth : Term → Bool) : Out :=
   Out.ret [] (Term.app ".copy" [(Term.app "getitem" [(Term.sym "self"), (Term.app "~" [(Term.app ".is_na" [(Term.sym "self")])])])])
@@ -92,6 +101,9 @@ def Vector_drop_na_decorators : List String := []
 /-- the signature of dataiter/vector.py: Vector.drop_na: parameters in order, with the source text of their defaults -/
 def Vector_drop_na_signature : List String := ["self"]
 
+/-- the calls of dataiter/vector.py: Vector.drop_na in the order Python makes them along the source text -/
+def Vector_drop_na_call_order : List String := ["self.is_na", "self[~self.is_na()].copy"]
+
 /-- dataiter/vector.py: Vector.tolist (sha256 of the function source: 6c6b05c5c3a558ee) -/
 def Vector_tolist (truth : Term → Bool) : Out :=
   Out.ret [] (Term.app ".tolist" [(Term.app "np.where" [(Term.app ".is_na" [(Term.sym "self")]), (Term.sym "None"), (Term.sym "self")])])
@@ -101,6 +113,9 @@ def Vector_tolist_decorators : List String := []
 
 /-- the signature of dataiter/vector.py: Vector.tolist: parameters in order, with the source text of their defaults -/
 def Vector_tolist_signature : List String := ["self"]
+
+/-- the calls of dataiter/vector.py: Vector.tolist in the order Python makes them along the source text -/
+def Vector_tolist_call_order : List String := ["self.is_na", "np.where", "np.where(self.is_na(), None, self).tolist"]
 
 /-- dataiter/vector.py: Vector.equal (sha256 of the function source: e933f960452bc821) -/
 def Vector_equal (truth : Term → Bool) (self_length : Int) (other_length : Int) : Out :=
@@ -116,5 +131,8 @@ def Vector_equal_decorators : List String := []
 
 /-- the signature of dataiter/vector.py: Vector.equal: parameters in order, with the source text of their defaults -/
 def Vector_equal_signature : List String := ["self", "other"]
+
+/-- the calls of dataiter/vector.py: Vector.equal in the order Python makes them along the source text -/
+def Vector_equal_call_order : List String := ["isinstance", "str", "str", "self.is_na", "other.is_na", "np.all", "np.all"]
 
 end DI.Gen
